@@ -499,7 +499,7 @@ class Executor(object):
                 run.report_run_completed(None)
                 if is_first:
                     self.ui.warning("{ind}Aborting remaining benchmarks using %s."
-                                    % escape_braces(str(run.executable)))
+                                    % escape_braces(str(run_exe_missing.executable)))
                     is_first = False
             else:
                 remaining_runs.append(run)
